@@ -29,6 +29,29 @@ def interp_class(tree):
     return _INT_CACHE[id(tree)]
 
 
+def nnps_built_over(fn, factory, want):
+    """per feasible path of `fn`: self.nnps is assigned a call of `factory` whose keywords (path-local names substituted) are `want`, and the evaluator gets that very object"""
+    from verif_static import paths as PT
+    seen = []
+    ok = True
+    for p_ in PT.enumerate_paths(M.docstring_stripped(fn.body)):
+        built = None
+        handed = False
+        for e in p_:
+            if e.kind == 'stmt' and isinstance(e.node, ast.Assign) and any(compact(t_) == 'self.nnps' for t_ in e.node.targets):
+                v = PT.resolve(e.node.value, e.env)
+                if isinstance(v, ast.Call) and compact(v.func) == factory:
+                    built = v
+        for i, c, cal, env in PT.calls_on(p_):
+            if cal == 'self.func_eval.set_nnps' and c.args:
+                a0 = compact(PT.resolve(c.args[0], env))
+                handed = a0 == 'self.nnps' or (built is not None and a0 == compact(built))
+        kw = dict((k.arg, compact(k.value)) for k in built.keywords) if built is not None else {}
+        seen.append(kw)
+        ok = ok and built is not None and handed and all(kw.get(k_) == v_ for k_, v_ in want.items())
+    return ok and bool(seen), seen[:1]
+
+
 def U(n):
     return M.unparse(n)
 
@@ -422,10 +445,7 @@ def rule_rebinding(chk, tree):
                detail_bad='new arrays are not installed, given a new neighbour structure over (sources + target) AND re-bound in the evaluator',
                detail_ok='set arrays; new NNPS over sources+target; evaluator re-bound to the same list')
     cn = M.find_func(icls, '_create_nnps')
-    c = [x for x in M.calls(cn) if M.call_name(x) == 'NNPS']
-    kw = dict((k.arg, compact(k.value)) for k in c[0].keywords) if c else {}
-    ok = kw.get('particles') == 'arrays' and kw.get('radius_scale') == 'self.kernel.radius_scale' and kw.get('dim') == 'self.kernel.dim' and \
-        kw.get('domain') == 'self.domain_manager' and 'self.func_eval.set_nnps(self.nnps)' in compact(cn)
+    ok, kw = nnps_built_over(cn, 'NNPS', {'particles': 'arrays', 'radius_scale': 'self.kernel.radius_scale', 'dim': 'self.kernel.dim', 'domain': 'self.domain_manager'})
     chk.decide(ok, 'rebinding', 'Interpolator._create_nnps', node=cn, file=INT, func='_create_nnps',
                detail_bad='the neighbour structure is not built over the given arrays with the kernel radius and domain and handed to the evaluator: %s' % kw,
                detail_ok='NNPS(particles=arrays, kernel radius, domain); set_nnps')
@@ -500,7 +520,9 @@ def rule_rebinding(chk, tree):
     chk.decide(ok, 'rebinding', '_set_particle_arrays', node=sp, file=INT, func='_set_particle_arrays', detail_bad='new arrays are not stored / given temp_prop', detail_ok='stored; temp_prop ensured')
     # SPHEvaluator
     st = M.py(SEV)
-    ecls = M.find_class(st, 'SPHEvaluator')
+    ecls_raw = M.find_class(st, 'SPHEvaluator')
+    # private helpers factored out of the methods are inlined again; a local that only names an attribute (`nnps = self.nnps`) is that attribute
+    ecls = M.self_aliases_inlined(M.inlined_class(ecls_raw, keep=set(['_create_nnps']) | set(n_ for n_ in M.methods(ecls_raw) if not n_.startswith('_') or n_ == '__init__')))
     e_up = M.find_func(ecls, 'update_particle_arrays')
     src = compact(e_up)
     chk.decide(on_every_path(e_up, ['self._create_nnps(arrays)', 'self.func_eval.update_particle_arrays(arrays)']), 'rebinding', 'SPHEvaluator.update_particle_arrays', node=e_up,
@@ -508,10 +530,7 @@ def rule_rebinding(chk, tree):
                '(a reused neighbour structure may have been built on other arrays: SPHEvaluator keeps no record of the arrays the current one was built on)',
                detail_ok='new NNPS and evaluator re-bound to the same arrays')
     e_cn = M.find_func(ecls, '_create_nnps')
-    c = [x for x in M.calls(e_cn) if M.call_name(x) == 'self.nnps_factory']
-    kw = dict((k.arg, compact(k.value)) for k in c[0].keywords) if c else {}
-    ok = kw.get('particles') == 'arrays' and kw.get('radius_scale') == 'self.kernel.radius_scale' and kw.get('domain') == 'self.domain_manager' and \
-        'self.func_eval.set_nnps(self.nnps)' in compact(e_cn)
+    ok, kw = nnps_built_over(e_cn, 'self.nnps_factory', {'particles': 'arrays', 'radius_scale': 'self.kernel.radius_scale', 'domain': 'self.domain_manager'})
     chk.decide(ok, 'rebinding', 'SPHEvaluator._create_nnps', node=e_cn, file=SEV, func='SPHEvaluator._create_nnps', detail_bad=str(kw), detail_ok='factory(particles=arrays, ...); set_nnps')
     e_init = M.find_func(ecls, '__init__')
     g4 = C.build_cfg(e_init)
